@@ -468,55 +468,34 @@ func DefaultExternals() map[string]externalFn {
 
 		// --- sync.Map (deterministic model)
 		"(*sync.Map).Load": func(fr *frame, args []value) value {
-			m := fr.i.syncMap(args[0])
-			key := args[1]
-			if containsSym(key) {
-				key = fr.concretizeKey(m, key, anyType, false)
-				if key == nil {
-					return tuple{iface{}, false}
-				}
-			}
-			v, ok := m.lookup(key)
+			v, ok := fr.mapLookup(fr.i.syncMap(args[0]), args[1], anyType)
 			if !ok {
 				return tuple{iface{}, false}
 			}
 			return tuple{v, true}
 		},
 		"(*sync.Map).Store": func(fr *frame, args []value) value {
-			m := fr.i.syncMap(args[0])
-			key := args[1]
-			if containsSym(key) {
-				key = fr.concretizeKey(m, key, anyType, true)
-			}
-			m.insert(key, args[2])
+			fr.mapInsert(fr.i.syncMap(args[0]), args[1], args[2], anyType)
 			return nil
 		},
 		"(*sync.Map).LoadOrStore": func(fr *frame, args []value) value {
 			m := fr.i.syncMap(args[0])
-			if v, ok := m.lookup(args[1]); ok {
+			if v, ok := fr.mapLookup(m, args[1], anyType); ok {
 				return tuple{v, true}
 			}
-			m.insert(args[1], args[2])
+			fr.mapInsert(m, args[1], args[2], anyType)
 			return tuple{args[2], false}
 		},
 		"(*sync.Map).LoadAndDelete": func(fr *frame, args []value) value {
 			m := fr.i.syncMap(args[0])
-			if v, ok := m.lookup(args[1]); ok {
-				m.delete(args[1])
+			if v, ok := fr.mapLookup(m, args[1], anyType); ok {
+				fr.mapDelete(m, args[1], anyType)
 				return tuple{v, true}
 			}
 			return tuple{iface{}, false}
 		},
 		"(*sync.Map).Delete": func(fr *frame, args []value) value {
-			m := fr.i.syncMap(args[0])
-			key := args[1]
-			if containsSym(key) {
-				key = fr.concretizeKey(m, key, anyType, false)
-				if key == nil {
-					return nil
-				}
-			}
-			m.delete(key)
+			fr.mapDelete(fr.i.syncMap(args[0]), args[1], anyType)
 			return nil
 		},
 		"(*sync.Map).Range": func(fr *frame, args []value) value {
